@@ -531,7 +531,7 @@ pub fn c03(tier: Tier) -> i32 {
                 }
             }
         }
-        if t_tree.elapsed().as_secs_f64() > 2.0 {
+        if t_tree.elapsed().as_secs_f64() > 60.0 {
             eprintln!("[C03 phase] tree #{} ({} root entries, {}) took {:.1}s", ti, tree.len(), describe(tree).chars().take(60).collect::<String>(), t_tree.elapsed().as_secs_f64());
         }
         let _ = std::fs::remove_dir_all(&root);
